@@ -53,6 +53,11 @@ def run(pid, tier, seed):
             why = "view<K> yields the node for K in %s" % e["views"]
         elif e["sink"] != want["sink"]:
             why = "a sinks-only visitor received it in %s, not %s" % (e["sink"], want["sink"])
+        elif e["nested"] != e["nestdepth"] or e["strays"] != 0:
+            why = "accept entered again from inside its hook, %d levels deep, reached the node's own hook %d times and another " \
+                  "hook %d times" % (e["nestdepth"], e["nested"], e["strays"])
+        elif e["innerviews"] != [e["cat"]]:
+            why = "view<K> asked from the innermost of %d nested hooks yields the node for K in %s" % (e["nestdepth"], e["innerviews"])
         if why:
             key = "%s:%s" % (e["cat"], e["impl"])
             if key in seen:
@@ -81,7 +86,8 @@ def run(pid, tier, seed):
         "rule": "one instance of every implementation class obtainable for every interface category (factories, unified "
                 "constructors, declarations, scopes/regions/overloads of every flavour, constants, companions; Comment and "
                 "Annotation constructed directly). Per instance: category, hooks reached by a recording visitor that overrides "
-                "nothing, number of hooks accept() enters, the sink a sinks-only visitor gets, and view<K> for all 159 K. "
+                "nothing, number of hooks accept() enters, the sink a sinks-only visitor gets, view<K> for all 159 K, and the same "
+                "with accept() entered again from inside the hook it called, 301 levels deep (as a recursive visitor does). "
                 "distinct_nontrivial = distinct (category, implementation class) pairs.",
         "samples": [e for e in events if e.get("e") == "visit"][100:103],
         "exhaustive": True, "exhaustive_scope": "all %d interface categories that have a class; categories without an instance: %s" % (len(table), missing),
